@@ -513,6 +513,8 @@ def contains(it, container, item, node):
         return VSet([True, False])
     if isinstance(container, (AStr, ABag, CharSet, VSet)):
         return VSet([True, False])
+    if container is None or isinstance(container, (bool, int, float)):
+        it.may_raise("TypeError", node, f"argument of type {type(container).__name__!r} is not iterable", certain=True)
     raise _CE(f"membership in {container!r}")
 
 
